@@ -1072,6 +1072,84 @@ theorem step_store {t : Table} {fl : Flags} {Γ Γ' : SEnv} {σ : DState} (inv :
             have := h2 g hgΓ hgv rg hrg hend
             exact Region.on_of_subset (fun l hl => List.mem_append_right _ hl) this
 
+/-! ### conversions between lifetime-carrying values -/
+
+/-- with `convsAdequate`, the output of a conversion carries the region of its source: it is invalidated together with
+    the source, in particular when the epoch of the source's memory ends -/
+theorem convRegion_tied {c : ValueConv} (h : c.tied = true) (e : Entry) : convRegion c e = e.self := by
+  unfold ValueConv.tied at h
+  simp only [Bool.and_eq_true, bne_iff_ne, ne_eq] at h
+  unfold convRegion
+  rcases hl : c.lts with _ | ⟨l, rest⟩
+  · exact absurd hl h.1
+  · have := List.all_eq_true.1 h.2 l (by rw [hl]; exact List.mem_cons_self)
+    simp [this]
+
+theorem step_vconv {t : Table} (hok : sigOK t = true) {fl : Flags} {Γ Γ' : SEnv} {σ : DState} (inv : Inv Γ σ)
+    {x v : Var} {input name : String} (hc : checkStmt t fl Γ (.vconv x v input name) = .ok Γ') :
+    ∃ σ', runStmt fl σ (.vconv x v input name) = .ok σ' ∧ Inv Γ' σ' := by
+  simp only [checkStmt, checkVconv] at hc
+  cases hlc : t.lookupConv input name with
+  | none => rw [hlc] at hc; cases hc
+  | some c =>
+    rw [hlc] at hc; simp only at hc
+    split at hc
+    · cases hc
+    · cases hl : Γ.lookupValid v with
+      | error r => rw [hl] at hc; cases hc
+      | ok e =>
+        rw [hl] at hc; simp only at hc
+        split at hc
+        · cases hc
+        · rename_i hk
+          have hk : e.kind = .val := by simpa using hk
+          rw [convRegion_tied (sigOK_conv hok hlc)] at hc
+          rcases lookupValid_ok hl with ⟨he, rfl, hv⟩
+          rcases inv.get_of_valid he hv with ⟨r, hr, ht⟩
+          rcases declare_ok hc with ⟨hfresh, rfl⟩
+          have hrk : r.kind = .val := ht.1.trans hk
+          have halive := inv.alive he hv hk hr
+          refine ⟨σ.set x r, ?_, ?_⟩
+          · simp [runStmt, hr, hrk, halive]
+          · have hcl := inv.closed e he hv
+            have hvo := inv.vals e he hv hk r hr
+            apply inv.add ⟨x, .val, .own, e.self, e.self, true, Γ.depth⟩ r hfresh rfl
+            · refine ⟨hrk, ?_, ?_, ?_, ?_, ht.2.2.2.2.2.1, ?_⟩
+              · intro h; cases h
+              · intro h; cases h
+              · intro h; simp [Entry.isHandle] at h
+              · intro h; cases h
+              · intro h; cases h
+            · refine ⟨fun l hl => hl, hcl.2.1, ?_⟩
+              intro p m hp ep hep hvar l hl
+              rcases hcl.2.1 p m hp with ⟨ep0, hep0, h1, _, _, h4⟩
+              have := inv.eq_of_var_eq hep hep0 (hvar.trans h1.symm)
+              subst this; exact h4 l hl
+            · intro _ ex hex
+              exact hvo ex hex
+            · intro e' _ _ _ re _ ex _ hend
+              rcases hend.1 with ⟨hk', _⟩ | ⟨hk', _⟩ | ⟨hk', _⟩ <;> cases hk'
+            · intro h; simp [Entry.isHandle] at h
+            · intro h _ _ _ rh' _ hon
+              rcases hon with ⟨hk', _⟩ | ⟨hk', _⟩ | ⟨hk', _⟩ <;> cases hk'
+            · intro h; simp [Entry.isHandle] at h
+            · intro h; simp [Entry.isHandle] at h
+
+theorem step_join {t : Table} (hok : sigOK t = true) {fl : Flags} {Γ Γ' : SEnv} {σ : DState} (inv : Inv Γ σ)
+    {x f : Var} {input name : String} (hc : checkStmt t fl Γ (.join x f input name) = .ok Γ') :
+    ∃ σ', runStmt fl σ (.join x f input name) = .ok σ' ∧ Inv Γ' σ' := by
+  simp only [checkStmt, checkJoin] at hc
+  cases hlc : t.lookupConv input name with
+  | none => rw [hlc] at hc; cases hc
+  | some c =>
+    rw [hlc] at hc; simp only at hc
+    split at hc
+    · cases hc
+    · rw [sigOK_conv hok hlc] at hc
+      simp only [if_true] at hc
+      have hs : checkStmt t fl Γ (.store x f) = .ok Γ' := by simpa only [checkStmt] using hc
+      exact step_store inv hs
+
 /-- **one step**: a statement accepted by the type checker runs without a fault and re-establishes the invariant -/
 theorem step_sound {t : Table} (hok : sigOK t = true) {fl : Flags} {Γ Γ' : SEnv} {σ : DState} (inv : Inv Γ σ)
     (st : Stmt) (hc : checkStmt t fl Γ st = .ok Γ') : ∃ σ', runStmt fl σ st = .ok σ' ∧ Inv Γ' σ' := by
@@ -1088,6 +1166,8 @@ theorem step_sound {t : Table} (hok : sigOK t = true) {fl : Flags} {Γ Γ' : SEn
   | store o x => exact step_store inv hc
   | send x => exact step_send hok inv hc
   | share x => exact step_share hok inv hc
+  | vconv x v input name => exact step_vconv hok inv hc
+  | join x f input name => exact step_join hok inv hc
 
 theorem Inv.empty : Inv SEnv.empty DState.empty := by
   constructor
